@@ -30,7 +30,7 @@ class TLCResult:
         if m:
             self.depth = int(m.group(1))
         self.invariant_violated = re.findall(r'Error: Invariant (\S+) is violated', out)
-        self.property_violated = bool(re.search(r'Error: Temporal properties were violated', out))
+        self.property_violated = bool(re.search(r'Error: Temporal propert(y|ies) .*violated', out))
         self.deadlock = 'Error: Deadlock reached' in out
         self.postcondition_failed = 'Error: The postcondition' in out or 'POSTCONDITION' in out and 'violated' in out
         self.tool_error = (rc not in (0, 12, 13, 11, 10) and not self.invariant_violated)
